@@ -277,6 +277,14 @@ def gen_c10_seq(seed, tier):
             cases.append(Case("lq", "lq_r%d" % i, lq_random(rng, limit, L, bias[0], bias[1]))); i += 1
     for _ in range(12 if tier == "quick" else 60):
         cases.append(Case("lq", "lq_m%d" % i, lq_malformed(rng))); i += 1
+    # move-only (unique_ptr<int>, lqm) and move-observable (MoveZero: the move leaves the source empty, lqs) items pushed as
+    # rvalues through the blocking path, the unblock_push path and the hand-over path
+    for eng in ("lqm", "lqs"):
+        for limit in (1, 2, 3):
+            for _ in range(max(6, n // 3)):
+                cases.append(Case(eng, "%s_s%d" % (eng, i), lq_structured(rng, limit))); i += 1
+            for _ in range(max(3, n // 6)):
+                cases.append(Case(eng, "%s_r%d" % (eng, i), lq_random(rng, limit, rng.choice([8, 16, 30]), 0.6, 0.25))); i += 1
     if tier != "quick":
         # exhaustive: limits 1..3, every history of length <= 7 over {push, pop, unblock_push}; length <= 5 with unblock_pop/destroy
         for limit in (1, 2, 3):
@@ -354,6 +362,13 @@ def gen_ctl(seed, tier, engine):
     for i in range(n):
         limit = None if engine == "tq" else rng.choice([1, 1, 2, 2, 3, 4])
         cases.append(thr_case(rng, engine, "%s%d" % (engine, i), limit))
+    # the same scenarios with move-only / move-observable items (pushed as rvalues)
+    for eng in (("tqm",) if engine == "tq" else ("tlqm", "tlqs")):
+        for i in range(n // 4):
+            limit = None if engine == "tq" else rng.choice([1, 1, 2, 3])
+            c = thr_case(rng, engine, "%s%d" % (eng, i), limit)
+            c.engine = eng
+            cases.append(c)
     j = 0
     for decl in RACE_CFGS[engine]:
         for pre in itertools.product(range(3), repeat=4 if tier == "quick" else 7):
